@@ -63,10 +63,12 @@ type TermTable struct {
 	pending []string
 	vars    []*Term
 	fresh   int
+	// byte view of input strings: seq var -> index -> BV8 var (see Interp.atomByte)
+	byteVars map[*Term]map[int]*Term
 }
 
 func NewTermTable() *TermTable {
-	return &TermTable{intern: map[string]*Term{}}
+	return &TermTable{intern: map[string]*Term{}, byteVars: map[*Term]map[int]*Term{}}
 }
 
 func (tt *TermTable) mk(op, name string, sort Sort, cval uint64, args ...*Term) *Term {
@@ -120,8 +122,7 @@ func (tt *TermTable) Var(name string, sort Sort) *Term {
 		return t
 	}
 	t := tt.mk("var", name, sort, 0)
-	t.ref = smtName(name)
-	tt.pending = append(tt.pending, fmt.Sprintf("(declare-const %s %s)", t.ref, sort))
+	// declared lazily, on first reference from an emitted term (see Ref)
 	tt.vars = append(tt.vars, t)
 	return t
 }
@@ -574,6 +575,9 @@ func (tt *TermTable) Ref(t *Term) string {
 	case "const":
 		t.ref = t.lit()
 		return t.ref
+	case "var":
+		tt.declare(t)
+		return t.ref
 	case "seq.empty":
 		t.ref = "(as seq.empty (Seq (_ BitVec 8)))"
 		return t.ref
@@ -597,6 +601,11 @@ func (tt *TermTable) Ref(t *Term) string {
 		}
 		if f.t.op == "seq.empty" {
 			f.t.ref = "(as seq.empty (Seq (_ BitVec 8)))"
+			stack = stack[:len(stack)-1]
+			continue
+		}
+		if f.t.op == "var" {
+			tt.declare(f.t)
 			stack = stack[:len(stack)-1]
 			continue
 		}
@@ -633,6 +642,24 @@ func (tt *TermTable) Ref(t *Term) string {
 	}
 	return t.ref
 }
+
+func (tt *TermTable) declare(t *Term) {
+	if t.isDef {
+		return
+	}
+	t.isDef = true
+	t.ref = smtName(t.name)
+	tt.pending = append(tt.pending, fmt.Sprintf("(declare-const %s %s)", t.ref, t.sort))
+	if t.sort.K == SSeq {
+		// link the byte view (if any) to the sequence view
+		for i, b := range tt.byteVars[t] {
+			tt.declare(b)
+			tt.pending = append(tt.pending, fmt.Sprintf("(assert (= %s (seq.nth %s %d)))", b.ref, t.ref, i))
+		}
+	}
+}
+
+func (t *Term) Declared() bool { return t.isDef }
 
 func (tt *TermTable) TakePending() []string {
 	p := tt.pending
